@@ -1,6 +1,7 @@
 package main
 
 import (
+	"errors"
 	"fmt"
 	"strings"
 
@@ -100,16 +101,16 @@ func (x *apiH) Apply(op seqmc.Op) *seqmc.Fail {
 		if x.live[op.A] && err != nil {
 			return seqmc.Failf("Unsub:error", "Unsub of a subscribed channel returned %v", err)
 		}
-		if !x.live[op.A] && err != chans.ErrAlreadyUnsubscribed {
+		if !x.live[op.A] && !errors.Is(err, chans.ErrAlreadyUnsubscribed) {
 			return seqmc.Failf("Unsub:error", "Unsub of a channel that was already removed returned %v, want ErrAlreadyUnsubscribed", err)
 		}
 		x.live[op.A] = false
 	case "Unsub(nil)":
-		if err := x.ps.Unsub(nil); err != chans.ErrSubscriptionNotInitalized {
+		if err := x.ps.Unsub(nil); !errors.Is(err, chans.ErrSubscriptionNotInitalized) {
 			return seqmc.Failf("Unsub:error", "Unsub(nil) returned %v, want ErrSubscriptionNotInitalized", err)
 		}
 	case "Unsub(foreign)":
-		if err := x.ps.Unsub(make(chan int)); err != chans.ErrAlreadyUnsubscribed {
+		if err := x.ps.Unsub(make(chan int)); !errors.Is(err, chans.ErrAlreadyUnsubscribed) {
 			return seqmc.Failf("Unsub:error", "Unsub of a channel this PubSub never handed out returned %v, want ErrAlreadyUnsubscribed", err)
 		}
 	case "UnsubAll":
